@@ -74,6 +74,54 @@ def _base(section, prefix, names):
     return _BASE[k]
 
 
+_TEMPLATE = {}
+# sections the generated file may use under the command's name rather than the documentation's
+TEMPLATE_ALIASES = {"pipeline": "collection-pipeline"}
+
+
+def _template(preset):
+    """The configuration file `thailint init-config --preset P` writes, parsed."""
+    if preset not in _TEMPLATE:
+        import yaml
+        from click.testing import CliRunner
+        from src.cli_main import cli
+        d = tempfile.mkdtemp(prefix="c05tpl-")
+        old = os.getcwd()
+        try:
+            os.chdir(d)
+            r = CliRunner().invoke(cli, ["init-config", "--non-interactive", "--preset", preset])
+            text = open(os.path.join(d, ".thailint.yaml")).read() if r.exit_code == 0 else ""
+        finally:
+            os.chdir(old)
+            shutil.rmtree(d, True)
+        _TEMPLATE[preset] = yaml.safe_load(text) or {}
+    return _TEMPLATE[preset]
+
+
+def h_template_sections(ctx):
+    """Every linter section written by init-config is the section the linter reads: switching
+    `enabled: false` in the generated file silences that linter."""
+    import copy
+    from src.core.config_parser import _normalize_config_keys
+    preset = ctx.pick("preset", ("standard", "strict", "lenient"))
+    section, prefix, groups = ctx.pick("linter", LINTERS)
+    names = ctx.pick("trigger", groups)
+    tpl = _template(preset)
+    ctx.require("template-generated", bool(tpl), preset=preset)
+    written = [k for k in tpl if isinstance(tpl[k], dict) and TEMPLATE_ALIASES.get(k, k).replace("_", "-") == section]
+    ctx.note("linter", section)
+    ctx.note("written_as", written)
+    if not written:
+        ctx.cover("not-in-template")
+        return
+    cfg = copy.deepcopy(tpl)
+    for k in written:
+        cfg[k]["enabled"] = False
+    own = _own(_lint(_normalize_config_keys(cfg), names), prefix)
+    ctx.cover("silent" if not own else "reporting")
+    ctx.require("section-written-by-init-config-is-the-one-the-linter-reads", not own, preset=preset, written_as=written, got=len(own))
+
+
 def h_enabled(ctx):
     from src.core.config_parser import _normalize_config_keys
     section, prefix, groups = ctx.pick("linter", LINTERS)
@@ -391,6 +439,10 @@ def obligations(tier):
                       "core.linter_utils.load_linter_config", "each linter's Config.from_dict"],
            bounds="enabled symbolic (bool); forked: %d documented sections x {hyphen, underscore} x trigger files per language" % len(LINTERS),
            timeout=600, workers=14, must_cover=("silent", "reporting")),
+        Ob(name="K1t-sections-written-by-init-config", engine="pathex", harness=h_template_sections,
+           functions=["thailint init-config --preset P (generated .thailint.yaml)", "config_parser._normalize_config_keys", "every rule's _load_config / section lookup"],
+           bounds="forked: 3 presets x %d linters x trigger files; the generated file with enabled: false in the linter's section as written by the template" % len(LINTERS),
+           timeout=600, workers=14, must_cover=("silent",)),
         Ob(name="K2-threshold-monotone-and-validated", engine="pathex", harness=h_monotone,
            functions=["the threshold linters' Config.from_dict/__post_init__", "NestingDepthRule/SRPRule/MagicNumberRule/DRYRule/MethodPropertyRule/CQSRule/CollectionPipelineRule .check"],
            bounds="two thresholds a <= b in [-1, 9] (thorough: [-1, 16]) (symbolic where the code only compares, enumerated by forking where it needs a machine integer); 10 (section, key) pairs x 2 spellings",
